@@ -17,7 +17,7 @@ RULE = (
     "(absent/None/0/float), modes (absent/even pair), output_levels (absent/list incl. unsorted)/full_output, ref_lat/ref_lon present "
     "or absent, 1..3 towers of different heights placed by lat/lon, scalar or list forcing of 1..3 steps (ustar xor z0, physically "
     "consistent by construction), optional timestamps, surface_flux_shape, src_loc; a tower index, a time index and optionally a "
-    "user-supplied flux array. Oracle (differential, same process, same thread setting => exact): run_bldfm_single(cfg, tower, i) vs "
+    "user-supplied flux array. Oracle (differential, same process, same thread setting => exact): run_bldfm_single(cfg, tower, step) for every step of the series in order vs "
     "compute_wind_fields -> vertical_profiles -> ideal_source -> steady_state_transport_solver called by hand with numbers read from "
     "the input dictionary (tower x,y first checked against an independent equirectangular formula to 1e-6 m); arrays and grids "
     "array_equal, timestamp/params/tower_name/tower_xy equal; if the hand pipeline raises, the interface must raise the same type. "
@@ -76,6 +76,9 @@ def _case(draw):
     ws = [draw(gen.fl(1.0, 8.0)) for _ in range(nt)]
     wd = [draw(gen.fl(0.0, 360.0)) for _ in range(nt)]
     mol = [draw(st.sampled_from([-1.0, 1.0])) * zmax * draw(gen.logfl(2.0, 1000.0)) for _ in range(nt)]
+    sweep = nt > 1 and draw(st.integers(0, 2)) == 0  # a direction sweep: only wind_dir changes from step to step
+    if sweep:
+        ws, mol = [ws[0]] * nt, [mol[0]] * nt
     met = {"wind_speed": ws if aslist else ws[0], "wind_dir": wd if aslist else wd[0], "mol": mol if aslist else mol[0]}
     usez0 = closure != "OAAHOC" and draw(st.booleans())
     if usez0:
@@ -87,6 +90,8 @@ def _case(draw):
             us = [math.sqrt(0.0856 * 0.845 * w / draw(gen.fl(3.0, 8.0))) for w in ws]
         else:
             us = [0.4 * w / draw(gen.fl(3.0, 9.0)) for w in ws]
+        if sweep:
+            us = [us[0]] * nt
         met["ustar"] = us if aslist else us[0]
     if draw(st.booleans()):
         met["timestamps"] = [f"s{i}" for i in range(nt)] if aslist else ["only"]
@@ -173,31 +178,38 @@ def check_case(case):
     if not (abs(txy[0] - x) <= 1e-6 and abs(txy[1] - y) <= 1e-6):
         out.bad(f"tower local coordinates {txy} differ from the equirectangular formula {(x, y)}")
 
-    try:
-        a = run_bldfm_single(cfg, cfg.towers[ti], met_index=i, surface_flux=flux)
-        ea = None
-    except Exception as e:
-        a, ea = None, e
-    try:
-        b = _hand(raw, ti, i, flux, txy)
-        eb = None
-    except Exception as e:
-        b, eb = None, e
-    if ea is not None or eb is not None:
-        out.label("raised")
-        if type(ea) is not type(eb):
-            out.bad(f"interface {'raised ' + type(ea).__name__ + ': ' + str(ea) if ea else 'returned'} but the hand pipeline "
-                    f"{'raised ' + type(eb).__name__ + ': ' + str(eb) if eb else 'returned'}")
-        out.nontrivial = False
-        return out
-    gb, cb, fb = b
-    if not (np.array_equal(a["conc"], cb) and np.array_equal(a["flx"], fb)):
-        e = "shape" if np.shape(a["flx"]) != np.shape(fb) else f"{np.abs(np.asarray(a['flx']) - fb).max():.3e}"
-        out.bad(f"run_bldfm_single(tower {ti}, step {i}) differs from the explicit pipeline (flux diff {e})")
-    if not all(np.array_equal(p, q) for p, q in zip(a["grid"], gb)):
-        out.bad("grid differs from the explicit pipeline")
-    if a["conc"].dtype != cb.dtype:
-        out.bad(f"dtype {a['conc'].dtype} vs {cb.dtype}")
+    # every step of the series is run, in order, in this process (state kept between runs must not leak into a
+    # later step); the drawn step i is the one whose metadata is examined below
+    a = None
+    for step in range(nt):
+        try:
+            aj = run_bldfm_single(cfg, cfg.towers[ti], met_index=step, surface_flux=flux)
+            ea = None
+        except Exception as e:
+            aj, ea = None, e
+        try:
+            b = _hand(raw, ti, step, flux, txy)
+            eb = None
+        except Exception as e:
+            b, eb = None, e
+        if ea is not None or eb is not None:
+            out.label("raised")
+            if type(ea) is not type(eb):
+                out.bad(f"step {step}: interface {'raised ' + type(ea).__name__ + ': ' + str(ea) if ea else 'returned'} but the hand "
+                        f"pipeline {'raised ' + type(eb).__name__ + ': ' + str(eb) if eb else 'returned'}")
+            out.nontrivial = False
+            return out
+        gb, cb, fb = b
+        if not (np.array_equal(aj["conc"], cb) and np.array_equal(aj["flx"], fb)):
+            e = "shape" if np.shape(aj["flx"]) != np.shape(fb) else f"{np.abs(np.asarray(aj['flx']) - fb).max():.3e}"
+            out.bad(f"run_bldfm_single(tower {ti}, step {step}) differs from the explicit pipeline (flux diff {e}; "
+                    f"steps run so far in this process: {list(range(step + 1))})")
+        if not all(np.array_equal(p, q) for p, q in zip(aj["grid"], gb)):
+            out.bad(f"step {step}: grid differs from the explicit pipeline")
+        if aj["conc"].dtype != cb.dtype:
+            out.bad(f"step {step}: dtype {aj['conc'].dtype} vs {cb.dtype}")
+        if step == i:
+            a = aj
     if a["tower_name"] != tw["name"] or tuple(a["tower_xy"]) != txy:
         out.bad(f"result carries tower {a['tower_name']!r} {a['tower_xy']}, expected {tw['name']!r} {txy}")
 
